@@ -389,10 +389,17 @@ func (set *Set) remove(hosts ...*Host) {
 		return
 	}
 	for _, host := range hosts {
-		delete(set.all, host.Addr)
+		// hosts are removed by address: the caller usually passes a fresh
+		// object, the one to close is the stored one.
+		if stored, ok := set.all[host.Addr]; ok {
+			stored.markRemoved()
+			delete(set.all, host.Addr)
+		}
 		host.markRemoved()
+		delete(set.healthyMain, host.Addr)
+		delete(set.healthyBackup, host.Addr)
 	}
-	set.removeFromHealthy(hosts...)
+	set.buildHealthyCache()
 }
 
 // MarkHostHealthy marks the given host as healthy.
